@@ -127,6 +127,7 @@ hset_api!(HA32, A32, 32);
 hset_api!(HU128, u128, 16);
 hset_api!(HTicket, Ticket, 4);
 hset_api!(HBps, Bps, 4);
+hset_api!(HB12, B12, 112);
 
 pub struct HDecoded {
     pub size: usize,
